@@ -153,13 +153,75 @@ func TestVerifC16Live(t *testing.T) {
 		lookup(k, want[k].id, "at the end")
 		lookups++
 	}
+	// the batch lookup of one emitter's stream (the governance emitter's, through the RPC): every acknowledged VAA of that emitter whose
+	// sequence is asked for comes back intact — the same sequence under two target chains, sequences from 2^63 on, unsorted requests —
+	// on this handle and after a re-open
+	var gov vaa.Address
+	gov[31] = 0x99
+	gchain := vaa.ChainID(1)
+	type gk struct {
+		tc  vaa.ChainID
+		seq uint64
+	}
+	gwant := map[gk][]byte{}
+	for gi, e := range []gk{{0, 3}, {255, 3}, {2, 3}, {0, 1}, {0, 7}, {0, 1<<63 - 1}, {0, 1 << 63}, {2, 1<<64 - 1}, {0, 20}, {0, 2}, {0, 200}} {
+		v := &vaa.VAA{Version: vaa.SupportedVAAVersion, GuardianSetIndex: 1, Timestamp: time.Unix(1700000000, 0), Nonce: uint32(gi), Sequence: e.seq,
+			EmitterChain: gchain, TargetChain: e.tc, EmitterAddress: gov, Payload: []byte{byte(gi), 1, 2, 3}}
+		s := &vaa.Signature{Index: 0}
+		v.Signatures = []*vaa.Signature{s}
+		w, err := v.Marshal()
+		if err != nil {
+			continue
+		}
+		if err := d.StoreSignedVAA(v); err != nil {
+			say("store of a governance VAA (target chain %d, sequence %d) failed: %v", e.tc, e.seq, err)
+			continue
+		}
+		gwant[e] = w
+	}
+	batch := func(when string, seqs []uint64) {
+		got, err := d.GetGovernanceVAABatch(gchain, gov, seqs)
+		if err != nil {
+			say("batch lookup of the governance emitter for %v (%s) failed although every one of its VAAs was stored with success: %v", seqs, when, err)
+			return
+		}
+		asked := map[uint64]bool{}
+		for _, q := range seqs {
+			asked[q] = true
+		}
+		seen := map[gk]bool{}
+		for _, g := range got {
+			k := gk{g.TargetChain, g.Sequence}
+			seen[k] = true
+			if w, ok := gwant[k]; !ok || !bytes.Equal(w, g.VaaBytes) {
+				say("batch lookup of the governance emitter for %v (%s) returned bytes for target chain %d sequence %d that are not the VAA stored under it", seqs, when, g.TargetChain, g.Sequence)
+			}
+		}
+		for k := range gwant {
+			if asked[k.seq] && !seen[k] {
+				say("batch lookup of the governance emitter for %v (%s) did not return the VAA stored with success under target chain %d sequence %d", seqs, when, k.tc, k.seq)
+			}
+		}
+	}
+	reqs := [][]uint64{{3}, {1, 3, 7}, {7, 3, 1}, {1 << 63}, {1<<63 - 1, 1 << 63, 1<<64 - 1}, {2, 20, 200}, {200, 3, 1<<64 - 1, 2}}
+	for _, q := range reqs {
+		batch("same handle", q)
+	}
 	d.Close()
+	if d, err = Open(dir); err != nil {
+		say("the store did not reopen after a clean Close: %v", err)
+	} else {
+		for _, q := range reqs {
+			batch("after close and reopen", q)
+		}
+		d.Close()
+	}
 	f, err := os.Create(os.Getenv("VERIF_OUT"))
 	if err != nil {
 		t.Fatal(err)
 	}
 	defer f.Close()
-	json.NewEncoder(f).Encode(map[string]interface{}{"k": "c16live", "stores": stores, "lookups": lookups, "ids": len(order), "sizes": sizes, "mon": mon})
+	json.NewEncoder(f).Encode(map[string]interface{}{"k": "c16live", "governance_vaas": len(gwant), "batch_requests": 2 * len(reqs), "stores": stores, "lookups": lookups, "ids": len(order), "sizes": sizes, "mon": mon})
 }
 
 func verifC16Common(a, b []byte) int {
